@@ -197,7 +197,7 @@ def varSem : Sem Var where
   init := Var.zero
   step v o := match applyOp v o with | .ok v' => some v' | .panic => none
   values v := match v.kind with
-    | .indexed => v.arr.list
+    | .indexed => if v.nilList then [[]] else v.arr.list   -- "${x[@]}" of a nil List: one empty field
     | .str => [v.str]
     | .unknown => []
   item := varItem
@@ -268,7 +268,7 @@ def showVar (v : Var) : String :=
   | .unknown => "unset"
   | .str => "str:" ++ b01 v.set ++ ":" ++ toHex v.str
   | .indexed => "arr:" ++ b01 v.set ++ ":" ++ toHex v.str ++ ":" ++ showIdx v.arr.idx ++ ":" ++
-      ";".intercalate (v.arr.list.map toHex)
+      (if v.nilList then "nil" else ";".intercalate (v.arr.list.map toHex))
 
 def handle (args : List String) : String :=
   match args with
